@@ -87,7 +87,7 @@ func check(args []string) int {
 			if lerr != nil {
 				r.Undecide("LOAD", "program", "", "the tree could not be loaded/type-checked ("+cfg.String()+"): "+lerr.Error())
 			} else {
-				runProp(prog, id, *tier, r)
+				runProp(prog, id, *tier, *verif, r)
 			}
 			out := r.Finish(known)
 			pp := results[id]
@@ -157,7 +157,7 @@ func check(args []string) int {
 	return exit
 }
 
-func runProp(prog *load.Program, id, tier string, r *rep.Report) {
+func runProp(prog *load.Program, id, tier, verif string, r *rep.Report) {
 	defer func() {
 		if e := recover(); e != nil {
 			r.Undecide("PANIC", "checker", "", fmt.Sprintf("checker panicked: %v\n%s", e, rep.Short(string(debug.Stack()), 1500)))
@@ -168,5 +168,5 @@ func runProp(prog *load.Program, id, tier string, r *rep.Report) {
 		r.Undecide("NOPROP", "checker", "", "no rules implemented for "+id)
 		return
 	}
-	f(&props.Ctx{P: prog, R: r, Tier: tier})
+	f(&props.Ctx{P: prog, R: r, Tier: tier, Verif: verif})
 }
